@@ -389,6 +389,9 @@ func c02PaddedValues(r *Run) {
 			{"in-loop", `<div v-for="q in one"><p data-m="1" title="a {{ v }}">x</p></div>`, "title", "a ", ""},
 			{"in-branch", `<p v-if="no">n</p><p v-else data-m="1" title="a {{ v }}">x</p>`, "title", "a ", ""},
 		} {
+			// a render that fails in the middle of a text, with output already produced for it, comes first: nothing of
+			// it may show in the next render's text
+			_, _ = c03RenderAny(`<p title="Hello {{ v }}, {{ v | nosuchfilter }}">Dear {{ v }}: {{ v | nosuchfilter }}</p>`, map[string]any{"v": "LEFTOVER"})
 			out, err := c03RenderAny(t.tpl, map[string]any{"v": v, "one": []any{1}, "no": false})
 			_, sink, found := c01Parse(out, "1", t.attr)
 			want := t.pre + v + t.post
